@@ -7,6 +7,9 @@
      Utc(u, off, cands)            u = zif_utc_time(l), off = l - u; cands = [[o, rank(l - o)]] for every distinct offset o:
                                    accepted iff OffsAt(u) = off, or no instant has l as its local time at all
      Rng(t, prev, next, off)       zif_find_zrng(t): the adjacent entries of the merged table and the offset in force
+     Trans(dir, t, tr, trm1, offb, offa)   dzone --next / --prev at t printed transition instant tr (tool text re-encoded; -1 / -2 = never)
+                                   with the offsets before and after it: tr must be the adjacent entry of the merged table on that side,
+                                   offb the offset in force just before tr (at trm1 = tr - 1 s) and offa the one from tr on
    A handle is queried many times without Reset: any dependence on earlier queries (C13) shows as a rejection. *)
 EXTENDS ZoneSem, Json, IOUtils, TLCExt, TLC
 VARIABLE l
@@ -31,7 +34,14 @@ TRng == /\ l <= Len(Tr) /\ Ev.e = "Rng"
                /\ Ev.next = RngOf(Ev.t)[2]
                /\ Ev.off = OffsAt(Ev.t))
         /\ l' = l + 1 /\ UNCHANGED zvars
-TNext == TReset \/ TLocal \/ TUtc \/ TRng
+TTrans == /\ l <= Len(Tr) /\ Ev.e = "Trans"
+          /\ (OffsAt(Ev.t) = Undef
+              \/ LET want == IF Ev.dir = "next" THEN RngOf(Ev.t)[2] ELSE RngOf(Ev.t)[1] IN
+                 /\ Ev.tr = want
+                 /\ (want >= 1 => /\ Ev.offa = OffsAt(Ev.tr)
+                                  /\ (OffsAt(Ev.trm1) = Undef \/ (~Ev.nob /\ Ev.offb = OffsAt(Ev.trm1)))))
+          /\ l' = l + 1 /\ UNCHANGED zvars
+TNext == TReset \/ TLocal \/ TUtc \/ TRng \/ TTrans
 TSpec == TInit /\ [][TNext]_<<zvars, l>>
 Accepted == TLCGet("stats").diameter - 1 = Len(Tr)
 =============================================================================
